@@ -31,6 +31,8 @@ SHAPES = {
     "DU": [["ünï cödé", "ç é.bin"], [".hidden"], ["sp ace", "tab\there"], ["名前.dat"]],   # unusual but valid names
     "D5": [["l1", "l2", "l3", "l4", "deep.bin"], ["l1", "l2", "mid.bin"], ["l1", "top.bin"]],
     # names that are not NFC-stable next to siblings that sort between their raw and composed forms
+    # members whose names differ only in letter case / Unicode normalisation form / compatibility folding
+    "DTW": [["caf\u00e9.txt"], ["cafe\u0301.txt"], ["Notes.txt"], ["notes.txt"], ["sub", "\u212a.bin"], ["sub", "k.bin"]],
     "DNFC": [["e\u0301.bin"], ["f.bin"], ["sub", "\u212a-scale.dat"], ["sub", "notes.txt"]],
     "DS": [["@"]],                     # a directory whose only file carries the directory's own name
     "DL": [["a.bin"], ["sub", "b.bin"], ["mirror", "a.bin"], ["zz-link"]],    # hard links inside the payload
@@ -322,6 +324,9 @@ class C01(CreateProp):
             creator = "TorrentFile" if n % 4 else "cli"
             out.append({"creator": creator, "version": 1, "P": P, "tree": mk_tree(sh, sizes, modes=modes_for(n, sizes), nv=(n // 2) % 6 if n % 4 == 1 else 0), "clauses": cl,
                         "progress": (0, 0, 1, 2)[n % 4] if n % 5 == 0 else 0})
+            if n % 3 == 2:      # the content root named in other ways ("." from inside it, relative, with ".." and doubled slashes)
+                sps = ("rel", "dotslash", "updown", "dbl") if sh == "S1" else ("dot", "rel", "dotslash", "updown", "absdot", "dbl", "trail", "slashdot")
+                out[-1]["spelling"] = sps[(n // 3) % len(sps)]
         # the model-checked universe replayed into the real Hasher
         out += hasher1_universe("MC_HasherV1.cfg" if tier != "thorough" else "MC_HasherV1_4files.cfg",
                                 ["C01.scaled", "M01.scaled"], rng, None if tier == "thorough" else 1500, aligns=(False,))
